@@ -38,7 +38,7 @@ type c08case struct {
 	mu      sync.Mutex // guards items (read by the watch goroutine on a deadlock)
 }
 
-var c08Steps = 9
+var c08Steps = 11
 
 // c08History is the healthy history.  Each sc.step is an injection point.
 func c08History(sc *sctx) {
@@ -67,7 +67,21 @@ func c08History(sc *sctx) {
 	p.send(mkCall(qh, func(t rpccp.MessageTarget) { t.SetImportedCap(exp) }, ifaceID, mHold, 0, nil))
 	qp := p.sendCallPromised(qh, []uint16{0}, mEcho, 1)
 	_ = qp
-	// 6: call with a capability (second export)
+	// 6: an incoming call that fails (answer returned with an exception,
+	// Finish withheld) and legal late pipelining on it and on the returned
+	// bootstrap answer
+	sc.step("failed-incoming-call")
+	qe := p.newManualQuestion()
+	p.send(mkCall(qe, func(t rpccp.MessageTarget) { t.SetImportedCap(exp) }, ifaceID, 9, 0, nil))
+	sc.wait("failed-call-return", func() bool { return p.sawReturn(qe) != nil })
+	sc.step("pipelined-on-returned-answers")
+	qf := p.sendCallPromised(qe, []uint16{0}, mEcho, 2)
+	qg := p.sendCallPromised(qb, nil, mEcho, 3)
+	if sc.wait("pipelined-returns", func() bool { return p.sawReturn(qf) != nil && p.sawReturn(qg) != nil }) {
+		b.rec.Count("pipelined_on_failed_answer", 1)
+		b.rec.Count("pipelined_on_returned_answer", 1)
+	}
+	// 8: call with a capability (second export)
 	sc.step("call-with-cap")
 	local := sc.keep(b.srv.client())
 	b.call("echo-cap", sc.ctx, bc, mEcho, 1, local, false)
@@ -150,6 +164,9 @@ func (cs *c08case) injectAll(sc *sctx) {
 		default:
 			h = genHostile(cs.rng.Fork(), kind, p.view())
 			b.rec.Logf("ITEM %s", h.desc)
+			if h.hasQ {
+				p.adoptQuestion(h.qid)
+			}
 			for _, segs := range h.msgs {
 				p.send(segs)
 			}
@@ -185,10 +202,32 @@ func (cs *c08case) injectAll(sc *sctx) {
 			cs.aborted = true
 		}
 		cs.classify(b, kind, h, mark, !alive)
+		if h.onFailed {
+			b.rec.Count("pipelined_on_failed_answer", 1)
+			b.rec.Count("hostile_on_failed_answer", 1)
+		}
+		if alive {
+			// The connection claims to be alive: its outbound stream must be
+			// usable (sender lock free, mutex free at quiescence) and a
+			// local operation must complete.
+			b.checkLocksFree("after-item:" + kind)
+			cs.localProbe(sc)
+		}
 	}
 	if len(cs.kinds) > 0 {
 		b.setAction(cs.kinds[len(cs.kinds)-1])
 	}
+}
+
+// localProbe: a fresh local Bootstrap + Resolve + call must complete (with a
+// result or an error) while the connection is alive.
+func (cs *c08case) localProbe(sc *sctx) {
+	b := sc.b
+	bc := b.bootstrap(sc.ctx)
+	b.resolve(sc.ctx, bc)
+	b.call("local-probe", sc.ctx, bc, mEcho, 77, nil, false)
+	b.release("local-probe", bc)
+	b.rec.Count("local_probes", 1)
 }
 
 // classify records the Conn's reaction to one hostile item (evidence only:
